@@ -295,6 +295,7 @@ BUILTIN_EXC = {'RuntimeWarning', 'UserWarning', 'DeprecationWarning', 'Warning',
 
 
 VISITED = set()      # qualified names of every function of the analysed package that was interpreted in this process
+COVER = None         # development aid (tools/coverage.py): set of (module name, line) of the statements interpreted
 
 
 def numeric_table(module, node):
@@ -1081,6 +1082,8 @@ class Frame:
 
     def exec_stmt(self, st):
         I = self.I
+        if COVER is not None:
+            COVER.add((self.module.name, st.lineno))
         if isinstance(st, ast.Expr):
             if isinstance(st.value, ast.Constant):
                 return
